@@ -41,7 +41,11 @@ func vfShapes2() []SDF2 {
 	sp, _ := Sphere3D(1)
 	pg, _ := Polygon2D([]v2.Vec{{0, 0}, {1, 0}, {0, 1}})
 	un := Union2D(c2, Transform2D(b2, Translate2d(v2.Vec{X: 2, Y: 0})))
-	return []SDF2{c2, b2, Line2D(2, 0.1), Offset2D(b2, 0.1), Intersect2D(c2, b2), Cut2D(b2, v2.Vec{}, v2.Vec{X: 1, Y: 1}),
+	var many []SDF2 // a large union (bolt-circle style profile)
+	for i := 0; i < 12; i++ {
+		many = append(many, Transform2D(c2, Translate2d(v2.Vec{X: float64(3 * i), Y: 0})))
+	}
+	return []SDF2{Union2D(many...), c2, b2, Line2D(2, 0.1), Offset2D(b2, 0.1), Intersect2D(c2, b2), Cut2D(b2, v2.Vec{}, v2.Vec{X: 1, Y: 1}),
 		Transform2D(b2, Rotate2d(0.5)), ScaleUniform2D(b2, 2), Center2D(b2), Array2D(c2, v2i.Vec{X: 2, Y: 2}, v2.Vec{X: 3, Y: 3}),
 		RotateUnion2D(b2, 3, Rotate2d(1)), RotateCopy2D(b2, 3), Slice2D(sp, v3.Vec{}, v3.Vec{X: 1, Y: 1, Z: 1}), un,
 		Difference2D(b2, c2), Elongate2D(c2, v2.Vec{X: 1, Y: 0}), pg, Cache2D(b2)}
